@@ -86,6 +86,12 @@ def run_meta(r):
         ff.append(bool(r_ff2.style.getProperty(name).valid))
         r_ff3 = css.CSSFontFaceRule(style="%s: %s" % (name, value))
         ff.append(bool(r_ff3.style.getProperties(all=True)[0].valid))
+        # a Property OBJECT that already belongs to an ordinary declaration block, handed to the @font-face block
+        donor = cssutils.parseString("a { %s: %s }" % (name, value)).cssRules[0].style
+        if donor.length:
+            r_ff4 = cssutils.parseString("@font-face { font-family: x }").cssRules[0]
+            r_ff4.style.setProperty(donor.getProperties(all=True)[0])
+            ff.append(bool(r_ff4.style.getProperty(name).valid))
         ffrule = bool(r_ff2.valid) == all(bool(p.valid) for p in r_ff2.style.getProperties(all=True))
         # a sheet is valid iff all its declarations are - wherever they sit: inside @media, inside @font-face
         s_m = cssutils.parseString("b { left: 1px } @media print { a { %s: %s } }" % (name, value))
@@ -135,6 +141,12 @@ def run_meta(r):
         origins.append(bool(st3.getProperties(all=True)[0].valid))
         r2 = css.CSSStyleRule(selectorText="a", style="%s: %s" % (name, value))
         origins.append(bool(r2.style.getProperties(all=True)[0].valid))
+        # ... and the other way round: an object that belongs to an @font-face block, handed to an ordinary block
+        donor2 = cssutils.parseString("@font-face { %s: %s }" % (name, value)).cssRules[0].style
+        if donor2.length:
+            st4 = cssutils.parseString("a { left: 0 }").cssRules[0].style
+            st4.setProperty(donor2.getProperties(all=True)[0])
+            origins.append(bool(st4.getProperty(name).valid))
         on = cssutils.CSSParser(validate=True).parseString("a { %s: %s } b { left: 1px }" % (name, value))
         off = cssutils.CSSParser(validate=False).parseString("a { %s: %s } b { left: 1px }" % (name, value))
         cssutils.log.raiseExceptions = True
